@@ -361,6 +361,9 @@ use x25519_dalek::PublicKey;
 
 pub mod helpers;
 
+#[cfg(mla_verif)]
+mod verif;
+
 // -------- Constants --------
 
 const MLA_MAGIC: &[u8; 3] = b"MLA";
@@ -1310,7 +1313,10 @@ pub struct ArchiveFailSafeReader<'a, R: 'a + Read> {
 }
 
 // Size of the repaired file blocks
+#[cfg(not(mla_verif))]
 const CACHE_SIZE: usize = 8 * 1024 * 1024; // 8MB
+#[cfg(mla_verif)]
+const CACHE_SIZE: usize = crate::verif::REPAIR_CACHE_SIZE;
 
 /// Used to update the error state only if it was `NoError`
 /// ```text
